@@ -203,3 +203,30 @@ def interp_rule(ctx, rule, funcs, why):
                       f'numpy.interp over an abscissa that is not known to be ascending ({ast.unparse(c.args[1])[:60]}): {why}',
                       src or ast.unparse(c)[:120])
     return n
+
+
+def verbose_rule(ctx, rule, funcs, why):
+    """a block guarded by the `verbose` flag only reports: it stores nothing that is read outside the block, writes no
+    attribute or item, and does not leave the function (design results must not depend on the logging flag)"""
+    n = 0
+    for f in funcs:
+        if 'verbose' not in f.params and 'verbose' not in f.kwonly:
+            continue
+        for g in [x for x in walk_no_nested(f.node) if isinstance(x, ast.If)]:
+            conj = g.test.values if isinstance(g.test, ast.BoolOp) and isinstance(g.test.op, ast.And) else [g.test]
+            if not any(isinstance(c, ast.Name) and c.id == 'verbose' for c in conj):
+                continue
+            n += 1
+            inside = {id(x) for st in g.body for x in ast.walk(st)}
+            stored = {x.id for st in g.body for x in ast.walk(st) if isinstance(x, ast.Name) and isinstance(x.ctx, ast.Store)}
+            leaks = sorted(nm for nm in stored if any(isinstance(x, ast.Name) and x.id == nm and isinstance(x.ctx, ast.Load) and id(x) not in inside
+                                                      and x.lineno > g.lineno for x in ast.walk(f.node)))
+            writes = [x for st in g.body for x in ast.walk(st) if isinstance(x, (ast.Attribute, ast.Subscript)) and isinstance(x.ctx, ast.Store)]
+            exits = [x for st in g.body for x in ast.walk(st) if isinstance(x, (ast.Return, ast.Raise, ast.Break, ast.Continue))]
+            other = [x for x in g.orelse]
+            bad = bool(leaks or writes or exits)
+            ctx.check(rule, f'{site(f, g)} if {ast.unparse(g.test)[:50]}', not bad, f'{f.qual}|verbose|{ast.unparse(g.test)[:40]}',
+                      f'a block that runs only when verbose is set ' + (f'assigns {leaks}, read after the block' if leaks else
+                                                                        'writes object state' if writes else 'leaves the function or loop') +
+                      f': {why}', ast.unparse(g)[:200].replace('\n', ' | '))
+    return n
